@@ -387,7 +387,8 @@ theorem stepRaw_RG {s : SeqState} (hd : DevOk s.dev) (hi : SeqInv s) (op : Op) :
           · exact RG_fail hi _
           · split
             · exact RG_fail hi _
-            · apply RG_bind (RG_withChan hi (fun c hc => enableEom_inv hc))
+            · unfold enableEomCommit
+              apply RG_bind (RG_withChan hi (fun c hc => enableEom_inv hc))
               intro s1 hi1 _
               apply RG_store
               repeat' split
@@ -403,7 +404,8 @@ theorem stepRaw_RG {s : SeqState} (hd : DevOk s.dev) (hi : SeqInv s) (op : Op) :
         · exact RG_fail hi _
         · split
           · exact RG_fail hi _
-          · apply RG_bind (RG_withChan hi (fun c hc => disableEom_inv hc))
+          · unfold modifyEomCommit
+            apply RG_bind (RG_withChan hi (fun c hc => disableEom_inv hc))
             intro s1 hi1 hd1
             split
             · exact RG_fail hi1 _
